@@ -578,95 +578,135 @@ func runC17(c *Ctx) {
 	between := c.Func("spec/chord", "", "Between")
 	stmts := sqliteStatements(c)
 	rk := c.Func("kv/sqlite3", "SqliteKV", "RangeKeys")
-	// choice of statement
-	var choice *ast.IfStmt
-	var thenF, elseF string
-	ast.Inspect(rk.Body, func(n ast.Node) bool {
-		ifs, ok := n.(*ast.IfStmt)
-		if !ok || ifs.Else == nil {
-			return true
-		}
-		get := func(b *ast.BlockStmt) string {
-			for _, st := range b.List {
-				if as, ok := st.(*ast.AssignStmt); ok && len(as.Rhs) == 1 {
-					if se, ok := as.Rhs[0].(*ast.SelectorExpr); ok && strings.HasPrefix(rk.FieldKey(se), "kv/sqlite3.statements.") {
-						return se.Sel.Name
-					}
+	// The statement that is executed and its bound arguments, for every order type of
+	// (low, hash, high). How the statement is chosen (if/else, default-then-override, a
+	// switch) is not matched: the function is executed on the evaluator up to the query call,
+	// with the prepared-statement fields as distinct opaque values, and the receiver of the
+	// query call is read off.
+	var query *ast.CallExpr
+	for _, call := range rk.Calls(false, func(call *ast.CallExpr) bool {
+		return rk.IsCall(call, "database/sql.Stmt.QueryContext", "database/sql.Stmt.Query")
+	}) {
+		query = call
+	}
+	if query == nil {
+		c.Failf("sqlite RangeKeys: the range query call (Stmt.QueryContext) not found (undecided)")
+	}
+	// bound arguments: the call's own arguments, or the elements of the slice literal it spreads
+	var argExprs []ast.Expr
+	first := 0
+	if rk.IsCall(query, "database/sql.Stmt.QueryContext") {
+		first = 1
+	}
+	if query.Ellipsis.IsValid() && len(query.Args) == first+1 {
+		if v := rk.varOf(query.Args[first]); v != nil {
+			if defs := rk.defsOf(v); len(defs) == 1 && !defs[0].multi {
+				if cl, ok := ast.Unparen(defs[0].rhs).(*ast.CompositeLit); ok {
+					argExprs = cl.Elts
 				}
 			}
-			return ""
+		} else if cl, ok := ast.Unparen(query.Args[first]).(*ast.CompositeLit); ok {
+			argExprs = cl.Elts
 		}
-		eb, _ := ifs.Else.(*ast.BlockStmt)
-		if eb != nil && get(ifs.Body) != "" && get(eb) != "" {
-			choice, thenF, elseF = ifs, get(ifs.Body), get(eb)
-		}
-		return true
-	})
-	if choice == nil {
-		c.Failf("sqlite RangeKeys: statement choice (if/else assigning a range statement) not recognised (undecided)")
+	} else if !query.Ellipsis.IsValid() {
+		argExprs = query.Args[first:]
 	}
-	// bound arguments
 	var argIdx []int // parameter index (1=low, 2=high) for each placeholder
-	ast.Inspect(rk.Body, func(n ast.Node) bool {
-		cl, ok := n.(*ast.CompositeLit)
-		if !ok || len(argIdx) > 0 {
-			return true
+	for _, e := range argExprs {
+		switch rk.Prov(e) {
+		case "param#1":
+			argIdx = append(argIdx, 1)
+		case "param#2":
+			argIdx = append(argIdx, 2)
+		default:
+			argIdx = append(argIdx, -1)
 		}
-		if at, ok := cl.Type.(*ast.ArrayType); !ok || types.ExprString(at.Elt) != "any" {
-			return true
-		}
-		for _, e := range cl.Elts {
-			switch rk.Prov(e) {
-			case "param#1":
-				argIdx = append(argIdx, 1)
-			case "param#2":
-				argIdx = append(argIdx, 2)
-			default:
-				argIdx = append(argIdx, -1)
-			}
-		}
-		return true
-	})
+	}
 	okArgs := len(argIdx) > 0
 	for _, a := range argIdx {
 		if a < 0 {
 			okArgs = false
 		}
 	}
-	c.Ob("sql-range", "sqlite.RangeKeys#bound-arguments", rk.Decl.Pos(), okArgs, fmt.Sprintf("the query arguments are the low/high parameters (through the order-preserving int64 binding); parameter indices %v", argIdx))
-	if okArgs && stmts[thenF] != nil && stmts[elseF] != nil {
+	c.Ob("sql-range", "sqlite.RangeKeys#bound-arguments", query.Pos(), okArgs, fmt.Sprintf("the query arguments are the low/high parameters (through the order-preserving int64 binding); parameter indices %v", argIdx))
+	// the prepared-statement fields as opaque values
+	fieldOf := map[string]string{} // objVal id -> field name
+	fieldVals := map[types.Object]Val{}
+	if st, ok := c.P("kv/sqlite3").Types.Scope().Lookup("statements").(*types.TypeName); ok {
+		if str, ok := st.Type().Underlying().(*types.Struct); ok {
+			for i := 0; i < str.NumFields(); i++ {
+				id := big.NewInt(int64(1000 + i))
+				fieldVals[str.Field(i)] = objVal{id: id}
+				fieldOf[id.String()] = str.Field(i).Name()
+			}
+		}
+	}
+	if len(fieldVals) == 0 {
+		c.Failf("anchor unresolved: kv/sqlite3.statements")
+	}
+	type stopAtQuery struct{ field string }
+	chosen := func(l, h *big.Int) string {
+		env := &evalEnv{f: rk, vars: map[types.Object]Val{}}
+		for k, v := range fieldVals {
+			env.vars[k] = v
+		}
+		i := 0
+		for _, fld := range rk.Type.Params.List {
+			for _, nm := range fld.Names {
+				switch i {
+				case 1:
+					env.vars[rk.Info.Defs[nm]] = l
+				case 2:
+					env.vars[rk.Info.Defs[nm]] = h
+				default:
+					env.vars[rk.Info.Defs[nm]] = objVal{id: big.NewInt(int64(i))}
+				}
+				i++
+			}
+		}
+		env.pre = func(f *Fn, call *ast.CallExpr) (Val, bool) {
+			if call == query {
+				se := call.Fun.(*ast.SelectorExpr)
+				field := ""
+				if o, ok := env.expr(se.X).(objVal); ok {
+					field = fieldOf[o.id.String()]
+				}
+				panic(stopAtQuery{field})
+			}
+			if id, ok := ast.Unparen(call.Fun).(*ast.Ident); ok {
+				if b, ok := f.Info.Uses[id].(*types.Builtin); ok && b.Name() == "make" {
+					return objVal{id: big.NewInt(int64(call.Pos()))}, true
+				}
+			}
+			return nil, false
+		}
+		field := ""
+		func() {
+			defer func() {
+				if r := recover(); r != nil {
+					switch x := r.(type) {
+					case stopAtQuery:
+						field = x.field
+					case evalUndecided:
+						c.Failf("sqlite RangeKeys: not evaluable up to the query call: %s", x.msg)
+					default:
+						panic(r)
+					}
+				}
+			}()
+			env.block(rk.Body.List)
+		}()
+		return field
+	}
+	if okArgs {
 		n := 0
 		for _, ord := range weakOrderings(3) {
 			l, h, hash := rankVal(ord[0]), rankVal(ord[2]), rankVal(ord[1])
-			// evaluate the Go condition
-			env := &evalEnv{f: rk, vars: map[types.Object]Val{}}
-			i := 0
-			for _, fld := range rk.Type.Params.List {
-				for _, nm := range fld.Names {
-					if i == 1 {
-						env.vars[rk.Info.Defs[nm]] = l
-					}
-					if i == 2 {
-						env.vars[rk.Info.Defs[nm]] = h
-					}
-					i++
-				}
-			}
-			var cond bool
-			func() {
-				defer func() {
-					if r := recover(); r != nil {
-						if u, ok := r.(evalUndecided); ok {
-							c.Failf("sqlite RangeKeys: statement choice condition not evaluable: %s", u.msg)
-						}
-						panic(r)
-					}
-				}()
-				cond, _ = env.expr(choice.Cond).(bool)
-			}()
-			st := stmts[elseF]
-			if cond {
-				st = stmts[thenF]
+			field := chosen(l, h)
+			st := stmts[field]
+			if st == nil {
+				c.Ob("sql-range", fmt.Sprintf("sqlite.RangeKeys#ordertype(low,hash,high)=%v", ord), query.Pos(), false, fmt.Sprintf("low=%v high=%v: the query does not run one of the prepared range statements (receiver resolves to %q)", l, h, field))
+				continue
 			}
 			var args []*big.Int
 			for _, a := range argIdx {
@@ -1316,8 +1356,9 @@ func runC19(c *Ctx) {
 		}
 		g := fn.enclosing(exec)
 		var classes []string
-		for _, a := range exec.Args {
-			pv := g.Prov(a)
+		execArgs := callArgs(g, exec, 0)
+		for _, a := range execArgs {
+			pv := g.enclosing(a).Prov(a)
 			switch {
 			case pv == "param#1":
 				classes = append(classes, "lease")
@@ -1335,7 +1376,7 @@ func runC19(c *Ctx) {
 		// transaction: the writer pool has one connection, so a call may queue behind a
 		// long transaction, and a `now` taken before it started lets a renewal (or an
 		// acquisition) be decided against the time it was issued, not the time it runs
-		for i, a := range exec.Args {
+		for i, a := range execArgs {
 			if i >= len(classes) || classes[i] != "now" {
 				continue
 			}
@@ -1364,7 +1405,19 @@ func runC19(c *Ctx) {
 				})
 			}
 			find(a, 0)
-			inTx := nowCall != nil && g.Lit != nil && nowCall.Pos() >= g.Lit.Pos() && nowCall.End() <= g.Lit.End()
+			// the write-transaction closure: the literal, enclosing the statement, that is
+			// handed to withWriteTx (the statement may sit in a literal nested in it)
+			var txLit *ast.FuncLit
+			for h := g; h != nil && txLit == nil; h = h.Parent {
+				if h.Lit != nil && h.Parent != nil {
+					for _, call := range h.Parent.CallsTo(true, "kv/sqlite3.withWriteTx") {
+						if len(call.Args) == 3 && call.Args[2] == ast.Expr(h.Lit) {
+							txLit = h.Lit
+						}
+					}
+				}
+			}
+			inTx := nowCall != nil && txLit != nil && nowCall.Pos() >= txLit.Pos() && nowCall.End() <= txLit.End()
 			c.Ob("sql-lease", "sqlite."+q.method+"#clock-read-inside-the-write-transaction", exec.Pos(), inTx, "the `now` bound into the "+q.field+" statement comes from a time.Now() evaluated inside the write-transaction closure that executes the statement")
 		}
 		c.Ob("sql-lease", "sqlite."+q.method+"#bound-arguments", exec.Pos(), strings.Join(classes, ",") == strings.Join(q.args, ","), fmt.Sprintf("arguments bound in the order the query expects %v; found %v", q.args, classes))
